@@ -65,9 +65,11 @@ pub enum Op {
     Grant { req: P, to: P, sec: u16, lvl: u8, ttl: Ttl, view: bool },
     Revoke { req: P, to: P, sec: u16, view: bool },
     Delegate { parent: P, child: P, secs: Vec<u16>, lvl: u8, ttl: Ttl },
-    RevokeDeleg { parent: P, child: P, cascade: bool },
+    /// `existing`: pick one of the recorded delegations by `which` (if any) instead of (parent, child)
+    RevokeDeleg { parent: P, child: P, cascade: bool, existing: bool, which: u16 },
     AddMember { from: P, to: P },
-    RemoveMember { from: P, to: P },
+    /// `existing`: remove the `which`-th harness-made MEMBER edge (if any) instead of one from -> to
+    RemoveMember { from: P, to: P, existing: bool, which: u16 },
     /// an edge that must NOT confer anything: a non-allow-listed type between principals, or any
     /// non-VAULT_ACCESS type (MEMBER included) pointing straight at a secret node
     OtherEdge { from: P, to: Tgt, ty: u8 },
@@ -187,9 +189,11 @@ fn op(short: bool) -> BoxedStrategy<Op> {
         6 => (p_admin(), p_to(), sec(), any::<bool>()).prop_map(|(req, to, sec, view)| Op::Revoke { req, to, sec, view }),
         6 => (p_admin(), p_child(), proptest::collection::vec(sec(), 1..3), 0u8..3, ttl(short))
             .prop_map(|(parent, child, secs, lvl, ttl)| Op::Delegate { parent, child, secs, lvl, ttl }),
-        3 => (p_admin(), p_child(), any::<bool>()).prop_map(|(parent, child, cascade)| Op::RevokeDeleg { parent, child, cascade }),
+        3 => (p_admin(), p_child(), any::<bool>(), proptest::bool::weighted(0.7), any::<u16>())
+            .prop_map(|(parent, child, cascade, existing, which)| Op::RevokeDeleg { parent, child, cascade, existing, which }),
         12 => (p_member_from(), p_member_to()).prop_map(|(from, to)| Op::AddMember { from, to }),
-        3 => (p_member_from(), p_member_to()).prop_map(|(from, to)| Op::RemoveMember { from, to }),
+        3 => (p_member_from(), p_member_to(), proptest::bool::weighted(0.8), any::<u16>())
+            .prop_map(|(from, to, existing, which)| Op::RemoveMember { from, to, existing, which }),
         4 => (p_member_from(), prop_oneof![p_member_to().prop_map(Tgt::P), sec().prop_map(Tgt::Sec)], 0u8..(OTHER_EDGE_TYPES.len() as u8))
             .prop_map(|(from, to, ty)| Op::OtherEdge { from, to, ty }),
         8 => (p_req(), sec()).prop_map(|(req, sec)| Op::Probe { req, sec }),
@@ -240,7 +244,7 @@ pub fn case_strategy(short: bool, max_ops: usize) -> impl Strategy<Value = Case>
         any::<bool>(),
         1u8..6,
         3u8..6,
-        1u8..4,
+        1u8..5,
         proptest::collection::vec(sec_spec(), 3..5),
     )
         .prop_flat_map(move |(pol, max_value, shared_store, max_versions, n_ident, n_group, secrets)| {
